@@ -1324,6 +1324,7 @@ func (ea *errAnalysis) runE7(rule string, only func(fn *ssa.Function) bool) {
 		g       *ssa.Global   // direct sentinel
 		callee  []*ssa.Function
 		wrapped bool // through fmt.Errorf without %w
+		filt    map[*ssa.Global]bool // sentinels excluded on the φ edge this source arrives through
 	}
 	var sourcesOf func(v ssa.Value, seen map[ssa.Value]bool, flat bool) []src
 	sourcesOf = func(v ssa.Value, seen map[ssa.Value]bool, flat bool) []src {
@@ -1338,8 +1339,33 @@ func (ea *errAnalysis) runE7(rule string, only func(fn *ssa.Function) bool) {
 		switch x := v.(type) {
 		case *ssa.Phi:
 			var out []src
-			for _, e := range x.Edges {
-				out = append(out, sourcesOf(e, seen, flat)...)
+			for i, e := range x.Edges {
+				sub := sourcesOf(e, seen, flat)
+				// the value arrives here only past the non-matching edge of a sentinel test of it
+				// (`if errors.Is(err, S) { err = nil }`): S cannot arrive through this edge
+				if i < len(x.Block().Preds) {
+					pred := x.Block().Preds[i]
+					for _, b := range x.Block().Parent().Blocks {
+						iff := ifOf(b)
+						if iff == nil {
+							continue
+						}
+						tx, g, ms, ok := ea.matchOf(iff.Cond)
+						if !ok || stripTrivial(tx) != stripTrivial(e) {
+							continue
+						}
+						if edgeDominates(b, 1-ms, pred) || (b == pred && b.Succs[1-ms] == x.Block()) {
+							for k := range sub {
+								f2 := map[*ssa.Global]bool{g: true}
+								for gg := range sub[k].filt {
+									f2[gg] = true
+								}
+								sub[k].filt = f2
+							}
+						}
+					}
+				}
+				out = append(out, sub...)
 			}
 			return out
 		case *ssa.MakeInterface:
@@ -1432,7 +1458,17 @@ func (ea *errAnalysis) runE7(rule string, only func(fn *ssa.Function) bool) {
 				}
 			}
 			for _, s := range sourcesOf(rv, map[ssa.Value]bool{}, false) {
-				perFn[fn] = append(perFn[fn], retSrc{s, filtered})
+				f2 := filtered
+				if len(s.filt) > 0 {
+					f2 = map[*ssa.Global]bool{}
+					for g := range filtered {
+						f2[g] = true
+					}
+					for g := range s.filt {
+						f2[g] = true
+					}
+				}
+				perFn[fn] = append(perFn[fn], retSrc{s, f2})
 			}
 		}
 	}
